@@ -232,10 +232,15 @@ func c09(args []string) {
 		if exp.Err != "" {
 			c.Broken("reference cannot evaluate the three-output shape: " + exp.Err)
 		}
-		for k := 0; k < c.Pick(8, 24); k++ {
+		// the omitted output is the first one by port name ("aux"); which output the library visits last depends on
+		// the order of declaration (Go visits small maps mostly in insertion order), so three orders are used
+		orders := [][]spec.PortDecl{{{Name: "out"}, {Name: "res"}, {Name: "aux"}}, {{Name: "aux"}, {Name: "out"}, {Name: "res"}}, {{Name: "out"}, {Name: "aux"}, {Name: "res"}}}
+		for k := 0; k < c.Pick(9, 24); k++ {
+			sk := s.Clone()
+			sk.Proc("T").Cmd = spec.BuildCmd("T", in, orders[k%3], nil, nil, nil)
 			f := exp.ByProc["T"][k%2]
-			mode := []string{"omit-output", "wrong-place"}[(k/2)%2]
-			jobs = append(jobs, &job{s: s, exp: exp, f: f, mode: mode, bh: vproto.Behaviours{f.Key: {"fail": mode, "sleep": "10"}}, cfg: Cfg{Buf: 128, Procs: []int{1, 2, 4}[k%3]}, idx: -1})
+			mode := []string{"omit-output", "wrong-place"}[(k/3)%2]
+			jobs = append(jobs, &job{s: sk, exp: exp, f: f, mode: mode, bh: vproto.Behaviours{f.Key: {"fail": mode, "sleep": "10"}}, cfg: Cfg{Buf: 128, Procs: []int{1, 2, 4}[k%3]}, idx: -1})
 		}
 	}
 	// many tasks failing at the same moment, each with a long error report: every one of them is a failing task
